@@ -17,6 +17,7 @@ import json
 import os
 import re
 import shutil
+import signal
 import struct
 import sys
 import tempfile
@@ -61,8 +62,15 @@ def ustr(u):
     return str(u).replace('Å', 'angstrom').replace('µ', 'u')
 
 
-def scalar(spec, dtype='float64'):
-    return sc.scalar(np.dtype(dtype).type(spec['value']), unit=spec['unit'])
+def scalar(spec, dtype=None):
+    """a 0-d variable of the dtype the case asks for (float64 unless the spec carries 'dtype')"""
+    dt = dtype or spec.get('dtype', 'float64')
+    return sc.scalar(np.dtype(dt).type(spec['value']), unit=spec['unit'], dtype=dt)
+
+
+def array(dims, spec, dtype=None):
+    dt = dtype or spec.get('dtype', 'float64')
+    return sc.array(dims=dims, values=np.array(spec['values'], dtype=dt), unit=spec['unit'])
 
 
 def vector(spec):
@@ -81,11 +89,11 @@ def conv(var, unit):
 def build_experiment(x):
     efix = x['efix']
     if efix['scalar']:
-        ef = sc.scalar(float(efix['values'][0]), unit=efix['unit'])
+        ef = scalar({'value': efix['values'][0], 'unit': efix['unit'], 'dtype': efix.get('dtype', 'float64')})
     else:
-        ef = sc.array(dims=['detector'], values=np.array(efix['values'], dtype='float64'), unit=efix['unit'])
+        ef = array(['detector'], efix)
     en = x['en']
-    env = sc.array(dims=en['dims'], values=np.array(en['values'], dtype='float64'), unit=en['unit'])
+    env = array(en['dims'], en)
     return SqwIXExperiment(
         run_id=x['run_id'], efix=ef, emode=EnergyMode[x['emode']], en=env,
         psi=scalar(x['psi']), u=vector(x['u']), v=vector(x['v']), omega=scalar(x['omega']),
@@ -145,11 +153,10 @@ def build_dnd(c):
         return [scalar(s) for s in lst]
     axes = SqwLineAxes(
         title=a['title'], label=a['label'], img_scales=sl(a['img_scales']),
-        img_range=[sc.array(dims=['range'], values=np.array(r['values'], dtype='float64'), unit=r['unit'])
-                   for r in a['img_range']],
-        n_bins_all_dims=sc.array(dims=['axis'], values=np.array(a['nbins'], dtype='int64'), unit=None),
+        img_range=[array(['range'], r) for r in a['img_range']],
+        n_bins_all_dims=sc.array(dims=['axis'], values=np.array(a['nbins'], dtype=a.get('int_dtype', 'int64')), unit=None),
         single_bin_defines_iax=sc.array(dims=['axis'], values=np.array(a['single_bin'], dtype=bool)),
-        dax=sc.array(dims=['axis'], values=np.array(a['dax'], dtype='int64'), unit=None),
+        dax=sc.array(dims=['axis'], values=np.array(a['dax'], dtype=a.get('int_dtype', 'int64')), unit=None),
         offset=sl(a['offset']), changes_aspect_ratio=a['changes_aspect'],
         filename=a.get('filename', 'ignored'), filepath=a.get('filepath', '/ignored'))
     proj = SqwLineProj(
@@ -263,7 +270,7 @@ def view_dnd(m, out):
     out['dnd.pr.type'] = st(p.type)
 
 
-def read_back(target, want_pixels=True):
+def read_back(target, want_pixels=True, skip=()):
     out, errors = {}, {}
     info = {}
     with Sqw.open(target) as sqw:
@@ -277,6 +284,10 @@ def read_back(target, want_pixels=True):
         info['block_names'] = names
         for n1, n2 in names:
             key = f'{n1}/{n2}'
+            if key in skip or '*' in skip:
+                errors[key] = ('harness: package reader not run, the extent does not hold a decodable block: '
+                               + str(skip.get(key) or skip.get('*')))[:300]
+                continue
             try:
                 with warnings.catch_warnings(record=True) as w:
                     warnings.simplefilter('always')
@@ -327,6 +338,32 @@ def read_back(target, want_pixels=True):
             except Exception as ex:  # noqa: BLE001
                 errors[key] = f'{type(ex).__name__}: {ex}'[:300]
     return info, out, errors
+
+
+def undecodable_blocks(raw):
+    """names 'n1/n2' of the REGULAR blocks whose extent does not hold a completely decodable object stream, judged by the
+    independent structural decoder of lib/sqwcorr.py (no package code).  Used ONLY to keep the package's reader away from
+    those blocks: on a malformed object stream it follows garbage shapes (loops over 2^32 elements, multi-GB allocations)
+    and takes the harness process down with it.  Pixel / histogram blocks are always handed to the reader."""
+    sys.path.insert(0, os.path.join(os.path.dirname(os.path.abspath(__file__)), '..', '..', 'lib'))
+    try:
+        import sqwcorr
+        st = sqwcorr.py_structure(raw)
+        bo = '<' if st['byteorder'] == 'little' else '>'
+        return {'/'.join(d['name']): why for d in st['descs']
+                if d['type'] == 'data_block' and (why := sqwcorr.block_problem(raw, d, bo))}
+    except Exception as ex:  # noqa: BLE001   (the table itself does not parse)
+        return {'*': f'{type(ex).__name__}: {ex}'}
+    finally:
+        sys.path.pop(0)
+
+
+class ReaderTimeout(BaseException):
+    pass
+
+
+def _alarm(signum, frame):
+    raise ReaderTimeout('the package reader did not return within 60 s')
 
 
 DATE_RE = re.compile(rb'\d{4}-\d\d-\d\dT\d\d:\d\d:\d\d\+00:00')
@@ -403,13 +440,19 @@ def run_case(c, tmpdir):
         ok = ok and (t0 - timedelta(seconds=1.5) <= dt <= t1 + timedelta(seconds=1.5))
     res['dates_in_window'] = ok
     res['native'] = sys.byteorder
+    malformed = undecodable_blocks(raw)
+    old = signal.signal(signal.SIGALRM, _alarm)
+    signal.alarm(60)
     try:
         if c['sink'] == 'bytesio':
             target.seek(0)
-        info, view, errors = read_back(target)
+        info, view, errors = read_back(target, skip=malformed)
         res['reader'] = {'info': info, 'view': view, 'errors': errors}
-    except Exception as ex:  # noqa: BLE001
+    except (Exception, ReaderTimeout) as ex:  # noqa: BLE001
         res['reader'] = {'open_error': f'{type(ex).__name__}: {ex}'[:400]}
+    finally:
+        signal.alarm(0)
+        signal.signal(signal.SIGALRM, old)
     if c['sink'] == 'file':
         os.remove(path)
     return res
